@@ -335,7 +335,7 @@ func splitArgs(s string) []string {
 }
 
 var reLoop = regexp.MustCompile(`^loop\s+(\d+)\s*:\s*(invariant|decreases|iteration ghost|iteration ensures)\s+(.*)$`)
-var reAtCall = regexp.MustCompile(`^at\s+(call\s+|recv\s+)?(\S+?)\s*:\s*(after\s+)?(assert|assume|ghost|allocbound)\s+(.*)$`)
+var reAtCall = regexp.MustCompile(`^at\s+(call\s+|recv\s+)?(\S+?)\s*:\s*(after\s+)?(assert|assume|ghost|allocbound|havoc)\s+(.*)$`)
 var reGhost = regexp.MustCompile(`^ghost\s+(\w+)\s*:=\s*(.*)$`)
 var reSpecFn = regexp.MustCompile(`^spec\s+func\s+(\w+)\s*\(([^)]*)\)\s*(\w+)\s*(=\s*(.*))?$`)
 var reAxiom = regexp.MustCompile(`^axiom\s+(\w+)\s*(\[([^\]]*)\])?\s*:\s*(.*)$`)
@@ -595,6 +595,20 @@ func (db *SpecDB) loadText(data, path, pkgPath string, extern bool) error {
 					h.Var = strings.TrimSpace(parts[0])
 					body = parts[1]
 				}
+				if h.Kind == "havoc" {
+					// havoc a, b.f, ... : one hook per location
+					for _, loc := range splitArgs(body) {
+						hh := h
+						hh.Var = strings.TrimSpace(loc)
+						hh.Cl = Clause{Text: strings.TrimSpace(loc), Line: ln, File: path}
+						hk := m[2]
+						if strings.TrimSpace(m[1]) == "recv" {
+							hk = "recv:" + hk
+						}
+						cur.Hooks[hk] = append(cur.Hooks[hk], hh)
+					}
+					break
+				}
 				cl, err := mk(body, ln)
 				if err != nil {
 					return err
@@ -715,6 +729,7 @@ type SpecEnv struct {
 	loopOrd int             // ordinal of the loop whose clause is being evaluated (iteration clauses)
 	scope   *ssa.BasicBlock // program point of the clause: only variables declared in dominating blocks are in scope
 	inOld   bool
+	freeVars map[string]*PtrInfo // captured variables of a closure under verification
 	entryParams map[string]Val // entry values of the parameters (what old(p) means; also p itself in pre/postconditions)
 	callSite bool // evaluating a callee's postcondition as an assumption
 	freshLo  Term // call site: objects allocated by the callee are above this
@@ -783,6 +798,9 @@ func (env *SpecEnv) lookupIdent(name string) (Val, bool) {
 		if v, ok := env.entryParams[name]; ok {
 			return v, true
 		}
+	}
+	if p, ok := env.freeVars[name]; ok {
+		return env.cur().loadQuiet(p, env), true
 	}
 	switch name {
 	case "true":
@@ -1369,8 +1387,15 @@ func (env *SpecEnv) evalCall(x *ast.CallExpr) Val {
 		if _, isCh := v.T.Underlying().(*types.Chan); isCh {
 			return boolVal(Select(env.cur().heapTerm("CH#held", SBool, false), v.L[0]))
 		}
+		if _, isPtr := v.T.Underlying().(*types.Pointer); isPtr && v.P != nil {
+			v = env.cur().loadQuiet(v.P, env)
+		}
 		if len(v.L) < 1 || v.L[0].Sort != SBool {
 			specFail("held(): not a mutex")
+		}
+		if len(v.L) == 2 && v.L[1].Sort == SInt {
+			// RWMutex: write-held or read-held by this thread
+			return boolVal(Or(v.L[0], Gt(v.L[1], I(0))))
 		}
 		return boolVal(v.L[0])
 	case "content":
@@ -1425,6 +1450,13 @@ func (env *SpecEnv) evalCall(x *ast.CallExpr) Val {
 		rng := And(Le(sv.L[1], bv), Lt(bv, Add(sv.L[1], sv.L[2])))
 		body := Ne(Select(Select(h, sv.L[0]), bv), I(0))
 		return boolVal(Term{fmt.Sprintf("(forall ((%s Int)) %s)", bv.S, Implies(rng, body).S), SBool})
+	case "wg":
+		// wg(x): the ghost counter of a sync.WaitGroup
+		v := env.addrOrVal(x.Args[0])
+		if len(v.L) != 1 || v.L[0].Sort != SInt {
+			specFail("wg(): not a WaitGroup")
+		}
+		return intVal(v.L[0])
 	case "chanRef":
 		return intVal(arg(0).L[0])
 	case "sliceArr":
